@@ -97,6 +97,9 @@ func runC20(e *emitter, idx int, c *StreamCase) {
 	var recv []Sx
 	closed := 0
 	var ret Sx = L(I(0), I(0), L())
+	if c.Enum != nil {
+		ret = I(0)
+	}
 	status, msg := guard(caseTimeout, func() {
 		type outcome struct {
 			res solver.Result
